@@ -141,4 +141,46 @@ func init() {
 			{ID: "R09.2", Title: "maps are never updated in place: no receiver stores; ListMap.Append / Go map stores only on maps created by the function", Floor: 40, Run: ruleR092},
 		},
 	})
+	register(&Property{
+		ID:        "C10",
+		Technique: "effect analysis: every store in code reachable from evaluation entry points (call-graph closure over static calls, method values and interface dispatch) is classified by the lifetime of its target; generated closures and stage producers are checked for stores into compile-time / per-list scope; aliasing rules R09.1/R09.2; per-closure allocation of the closure context (R01.2)",
+		Explanation: "Decides 'no evaluation-time store outlives the evaluation': code reachable from evaluation writes no package level variable, no field of the generator/optimizer/parser and no language value reached through a pointer (other than the mutex protected List cache); generated closures store nothing into generator scope; stage producers keep their state per iteration; " +
+			"list/map values are never written in place (R09); the closure context is allocated per closure creation (R01.2); every Eval creates its own stack and no generator-owned stack is used by evaluation code. Not decided: host functions with hidden state, random.",
+		Rules: []*Rule{
+			{ID: "R10.1a", Title: "generated closures store nothing into generator (compile time) scope", Floor: 25, Run: ruleR101closures},
+			{ID: "R10.1b", Title: "stage producers modify only state created inside the producer (per iteration)", Floor: 23, Run: ruleR101stages},
+			{ID: "R10.1c", Title: "evaluation code stores nothing into package level variables, generator fields or shared language values", Floor: 1, Run: ruleR101effects},
+			{ID: "R10.2", Title: "every Eval creates its own stack; no generator-owned stack is used by evaluation code", Floor: 2, Run: ruleR102},
+			{ID: "R09.1", Title: "list backing slices are never written in place (see C09)", Floor: 36, Run: ruleR091},
+			{ID: "R09.2", Title: "maps are never updated in place (see C09)", Floor: 40, Run: ruleR092},
+			{ID: "R01.2", Title: "closure context allocated per closure creation, slots in compile order (see C01)", Floor: 16, Run: ruleR012},
+		},
+	})
+	register(&Property{
+		ID:        "C11",
+		Technique: "the effect and ownership rules of C06/C10 read as necessary conditions of data-race freedom: lifetime classification of every evaluation-time store, mutex discipline of the List cache, goroutine confinement of value stacks, per-iteration pipelines",
+		Explanation: "Decides the necessary condition 'every evaluation-time store targets memory allocated during that evaluation or is lock protected': generated closures are read-only after Generate (no store into compile-time scope), evaluation code writes no package level variable / generator field / shared language value, the List cache is accessed under its mutex only, " +
+			"no generator-owned stack is used by evaluation code, every Eval has its own stack, iterator pipelines are built per iteration. Not decided: actual race freedom (no sound may-alias analysis in reach), equality of concurrent and isolated outcomes.",
+		Assumptions: []string{"value.New (which writes the package level type ids) is not called concurrently with an evaluation"},
+		Rules: []*Rule{
+			{ID: "R10.1a", Title: "generated closures store nothing into generator (compile time) scope", Floor: 25, Run: ruleR101closures},
+			{ID: "R10.1b", Title: "stage producers modify only state created inside the producer (per iteration)", Floor: 23, Run: ruleR101stages},
+			{ID: "R10.1c", Title: "evaluation code stores nothing into package level variables, generator fields or shared language values", Floor: 1, Run: ruleR101effects},
+			{ID: "R10.2", Title: "every Eval creates its own stack; no generator-owned stack is used by evaluation code", Floor: 2, Run: ruleR102},
+			{ID: "R06.2", Title: "the List cache is accessed under its mutex only", Floor: 13, Run: ruleR062},
+			{ID: "R06.1", Title: "value stacks are goroutine confined at MapAuto/FilterAuto/Merge", Floor: 3, Run: ruleR061},
+			{ID: "R06.3", Title: "iterator pipelines with callbacks are constructed per iteration", Floor: 15, Run: ruleR063},
+		},
+	})
+	register(&Property{
+		ID:        "C12",
+		Technique: "channel-protocol pairing at every spawn site: must-pass-through of the deferred blocking drain in Parse, close-dominates-return in the tokenizer goroutine, pattern analysis of the iterator dependency's goroutines (break that leaves only a select; plain send vs early-exit receiver) reported at the repository call sites that reach them, must-pass-through of the feeding call behind every consumer spawn",
+		Explanation: "Decides the structural pairing of goroutine starts with what ends them: the tokenizer goroutine closes its channel on every exit and Parse defers a blocking drain directly behind its start; every repository call into the iterator dependency is checked against the termination-protocol defects found in the dependency's source (known findings D16 at the map/accept/merge call sites; any new call site is a violation); " +
+			"behind every multiUse consumer spawn every path runs the feeding function. Not decided: timing ('short grace period'), termination of the user closures themselves.",
+		Rules: []*Rule{
+			{ID: "R12.1", Title: "tokenizer goroutine: closes its channel on every exit; Parse defers a blocking drain behind the start", Floor: 2, Run: ruleR121},
+			{ID: "R12.2", Title: "calls into the iterator dependency reach no goroutine with a defective termination protocol (ineffective break, blocked send)", Floor: 19, Run: ruleR122},
+			{ID: "R12.4", Title: "consumer goroutines are always fed: every path behind the spawn runs the CopyProducer feeding function", Floor: 1, Run: ruleR124},
+		},
+	})
 }
